@@ -1,7 +1,7 @@
 (* C11 — Cell expressions denote the Boolean function MCNP assigns to them.
    Only restatements; proofs are in C11/Proofs.v. Spec vocabulary: C11/Spec.v. *)
 From Coq Require Import List NArith ZArith Bool String Ascii Lia.
-From T4V Require Import Base.Str C11.Model C11.Spec C11.Proofs C11.LexProofs C11.LexSound C11.Layout C11.Pipeline C11.Sound C11.Complete C11.Loop.
+From T4V Require Import Base.Str C11.Model C11.Spec C11.Proofs C11.LexProofs C11.LexSound C11.Layout C11.Pipeline C11.Sound C11.Complete C11.Loop C11.Card.
 Import ListNotations.
 Close Scope string_scope.
 Open Scope list_scope.
@@ -189,6 +189,33 @@ Theorem C11_get_ast_accepts_iff : forall s : String.string,
 Proof. exact get_ast_accepts_iff. Qed.
 Print Assumptions C11_get_ast_accepts_iff.
 
+(* ---- the cell card (MIP/mip/cellcard.py split) ----
+   a card  name blanks mat [blanks rho] blanks E options : name and material
+   number are digit strings ("0"... = void, then no density), the density is
+   made of digits, signs and '.', E consists of expression characters and starts
+   with a non-blank, the options (if any) start with a letter or '*' right after
+   a ')' or a blank.  split() returns E with its leading blanks as the geometry
+   and the options untouched *)
+Theorem C11_split_card : forall name g1 mat rho g3 E opts,
+  digits_ok name = true -> mat_ok mat rho ->
+  str_forall expr_char E = true -> head_sat nonblank E = true -> opts_ok E opts ->
+  split_card (card_body name g1 mat rho g3 E ++ opts)%string = Ok ((blanks (S g3) ++ E)%string, opts).
+Proof. exact split_card_wellformed. Qed.
+Print Assumptions C11_split_card.
+
+(* ... and when E is any layout of any expression e, parsing the geometry part
+   gives exactly [psem e] (hence, with C11_parse_print / C11_pipeline, MCNP's
+   meaning when e is admissible) *)
+Theorem C11_card_geometry : forall name g1 mat rho g3 (e : mexpr) w r trail opts,
+  let ws := (0, w) :: r in
+  digits_ok name = true -> mat_ok mat rho ->
+  wf_written ws = true -> tokens_written ws = toks 0 e ->
+  opts_ok (render ws trail) opts ->
+  exists geom, split_card (card_body name g1 mat rho g3 (render ws trail) ++ opts)%string = Ok (geom, opts) /\
+               get_ast geom = psem e.
+Proof. exact card_geometry. Qed.
+Print Assumptions C11_card_geometry.
+
 (* [admissible] excludes exactly two classes of well-formed MCNP expressions
    that the code rejects (genuine defects, known findings): *)
 Theorem C11_nested_refuted :
@@ -228,6 +255,22 @@ Example C11_example_paren :
   admissible e = true /\ print e = "( ( 1 ) ) ( 2 : ( #3 ) )"%string /\
   get_ast "((1))(2:(#3))"%string = Ok (AAnd (ASurf 1 None) (AOr (ASurf 2 None) (ACompl 3))).
 Proof. cbv zeta. repeat split; vm_compute; reflexivity. Qed.
+
+(* a card: "12 3 -2.7 (1:-2)#5imp:n=1 u=2"? no: options need ')' or a blank in
+   front; "12 3 -2.7 #5 (1:-2)imp:n=1 u=2" *)
+Example C11_example_card :
+  let ws := [(0, WHashN 0 "5"); (1, WLP); (0, WLit false false "1" None); (0, WColon);
+             (0, WLit true false "2" None); (0, WRP)]%string in
+  mat_ok "3"%string (Some (0, "-2.7"%string)) /\ opts_ok (render ws 0) "imp:n=1 u=2"%string /\
+  (card_body "12" 0 "3" (Some (0, "-2.7")) 0 (render ws 0) ++ "imp:n=1 u=2" = "12 3 -2.7 #5 (1:-2)imp:n=1 u=2")%string /\
+  split_card "12 3 -2.7 #5 (1:-2)imp:n=1 u=2"%string = Ok (" #5 (1:-2)"%string, "imp:n=1 u=2"%string).
+Proof.
+  cbv zeta. split; [|split; [|split]].
+  - split; [reflexivity|]. split; [reflexivity|]. split; [reflexivity|discriminate].
+  - right. exists "#5 (1:-2"%string, ")"%char, "i"%char, "mp:n=1 u=2"%string. repeat split; reflexivity.
+  - reflexivity.
+  - vm_compute. reflexivity.
+Qed.
 
 (* non-vacuity of the end-to-end theorem: cells 1 = "-1 2", 2 = "#1 : 3",
    and the expression "#2 #1" *)
